@@ -149,7 +149,7 @@ impl Property for GramProp {
         if self.id == "C14" {
             return check_c14(&g, case.n, vd);
         }
-        let variants: &[Variant] = if self.id == "C12" { &[Variant::Rel, Variant::Dbg] } else { &[Variant::Rel] };
+        let variants: &[Variant] = if self.id == "C12" { &[Variant::Rel, Variant::Dbg, Variant::Nosep, Variant::DbgNosep] } else { &[Variant::Rel] };
         for &vr in variants {
             let d = match lex(vr, &src) {
                 Lexed::Ok(d) if !d.verif.budget_exceeded => d,
@@ -320,7 +320,7 @@ fn check_c14(g: &G, sel: u64, mut vd: Verdict) -> Verdict {
 /// C12 on a given program text (replays): no error, initial configuration at the end, both builds
 fn check_c12_text(src: &str) -> Verdict {
     let mut vd = Verdict { key: src.to_string(), nontrivial: true, ..Default::default() };
-    for vr in [Variant::Rel, Variant::Dbg] {
+    for vr in [Variant::Rel, Variant::Dbg, Variant::Nosep, Variant::DbgNosep] {
         match lex(vr, src) {
             Lexed::Ok(d) if !d.verif.budget_exceeded => {
                 if let Some(e) = d.errs.first() {
